@@ -2,19 +2,22 @@
 
 Proof: coq/theories/NoCrash.  Core.v is the ingest buffer + flush path with Go's panics as
 explicit outcomes, Model.v the MessagePack / line-protocol request fronts (decoders imported
-from the MsgPack and LP areas) and the whole-server run.  Theorems over ALL request sequences:
-the process survives and conserves rows when every decoded batch satisfies the guard
-(C04_no_panic_guarded, C04_rows_conserved_guarded, for ANY decoder: C04_core_*), a request
-refused by the front stores nothing (C04_front_rejected_stores_nothing); the unguarded claims
-are refuted on the faithful model (C04_no_panic_refuted_*, C04_rejected_stores_nothing_refuted,
-C04_accepted_rows_lost_refuted).
+from the MsgPack and LP areas) and the whole-server run; both follow /repo AFTER the fix commits
+6c35f6a, 5cfca39, 763beab.  Theorems over ALL request sequences: the process never dies, no guard
+(C04_no_panic; for ANY decoder C04_core_no_panic, with C04_recover_is_what_saves_the_process
+showing the hypothesis is not idle); when every decoded batch is a rectangular Go map with an
+int64 time column no flush fails and rows are conserved (C04_core_no_flush_failure_guarded,
+C04_core_rows_conserved_guarded, C04_rows_conserved_guarded); a refused request stores nothing
+(C04_*front_rejected_stores_nothing); the former crash witnesses are refused or stored
+(C04_old_crash_witnesses_fixed).  Still refuted: C04_rejected_stores_nothing_refuted,
+C04_accepted_rows_lost_refuted.
 
 Tie: the REAL fiber app of api.NewServer with the REAL handlers, a REAL ArrowBuffer and a
 temporary LocalBackend run request SEQUENCES (+ background FlushAll) in CHILD processes; status
-classes, process death (where, which panic) and stored rows are compared with the model inside
-Coq.  A second, implementation-only stream sends mutated MessagePack / line-protocol / CSV /
-Parquet / TLE bodies (compressed or not) as sequences: any process death that is not one of the
-listed findings is a violation with the sequence as replay (supporting exploration, no model).
+classes, process death, stored rows and the buffer's own buffered/written counters are compared
+with the model inside Coq.  A second, implementation-only stream sends mutated MessagePack /
+line-protocol / CSV / Parquet / TLE bodies (compressed or not) as sequences: any process death
+or outsized allocation is a violation with the sequence as replay (supporting exploration).
 """
 import base64
 import glob
@@ -35,10 +38,9 @@ PID = "C04"
 AREA = "NoCrash"
 MODULES = ["Arc.NoCrash.Props"]
 THEOREMS = [("Arc.NoCrash.Props", t) for t in (
-    "C04_core_no_panic_guarded", "C04_core_rows_conserved_guarded", "C04_core_front_rejected_stores_nothing",
-    "C04_no_panic_guarded", "C04_rows_conserved_guarded", "C04_front_rejected_stores_nothing",
-    "C04_no_panic_refuted_empty_name", "C04_no_panic_refuted_underscore_type_change",
-    "C04_no_panic_refuted_signature_collision", "C04_no_panic_refuted_row_time_field",
+    "C04_no_panic", "C04_core_no_panic", "C04_recover_is_what_saves_the_process",
+    "C04_core_no_flush_failure_guarded", "C04_core_rows_conserved_guarded", "C04_rows_conserved_guarded",
+    "C04_core_front_rejected_stores_nothing", "C04_front_rejected_stores_nothing", "C04_old_crash_witnesses_fixed",
     "C04_rejected_stores_nothing_refuted", "C04_accepted_rows_lost_refuted", "C04_decoder_panic_recovered")]
 TIE_NAME = ("C04 correspondence (api.NewServer app + MsgPackHandler/LineProtocolHandler + ingest.ArrowBuffer in child "
             "processes vs Arc.NoCrash.Model.run_server)")
@@ -190,13 +192,14 @@ def obs_codes(case, o):
 def case_to_coq(case, o):
     rows = sorted(((k.encode("utf-8", "surrogateescape"), v) for k, v in o["rows"].items()), key=lambda kv: kv[0])
     return ("{| cc_max := %d%%N; cc_typed := %s; cc_evs := [%s]; cc_codes := [%s]%%N; cc_died := %s; cc_died_at := %d; "
-            "cc_reason := %d%%N; cc_rows := [%s] |}" % (
+            "cc_reason := %d%%N; cc_rows := [%s]; cc_buffered := %d%%N; cc_written := %d%%N |}" % (
                 case["max_rows"], "true" if case["typed"] else "false",
                 "; ".join(ev_to_coq(e) for e in case["events"]),
                 "; ".join(str(c) for c in obs_codes(case, o)),
                 "true" if o["died"] else "false", max(o["died_at"], 0),
                 classify_panic(o.get("panic", "")) if o["died"] else 0,
-                "; ".join("(%s, %d%%N)" % (mp.cbytes(k), v) for k, v in rows)))
+                "; ".join("(%s, %d%%N)" % (mp.cbytes(k), v) for k, v in rows),
+                max(o.get("buffered", 0), 0), max(o.get("written", 0), 0)))
 
 
 def run_impl(cases, tag, rng=None, timeout=2400):
@@ -254,8 +257,13 @@ TYPES = ["int", "float", "str", "bool"]
 
 def tvals(rng, n, base=None, style=None):
     base = T0 if base is None else base
-    style = style or rng.choice(["asc", "asc", "same", "desc", "multi", "rand"])
-    if style == "asc":
+    style = style or rng.choice(["asc", "asc", "same", "desc", "multi", "rand", "epoch", "epoch"])
+    if style == "epoch":
+        # SECOND-resolution values around 1970-01-01: the first row in hour bucket 0 (or -1), later rows in other
+        # hours, so that the flush takes the multi-hour path (groupByHour) with the epoch hour first
+        first = rng.choice([0, 0, 5, 3599, 1800, -1, -3600, 3600])
+        ts = [first] + [rng.choice([7200, 7300, 3599, 0, 36000, -7200, 10]) for _ in range(n - 1)]
+    elif style == "asc":
         ts = [base + i * 1000 for i in range(n)]
     elif style == "same":
         ts = [base] * n
@@ -533,7 +541,8 @@ def witness_cases():
 
     def add(name, evs, max_rows=BIG, typed=True):
         W.append({"family": "witness:" + name, "max_rows": max_rows, "typed": typed, "events": evs})
-    # the four crash routes (Props.v witnesses, byte for byte)
+    # the four sequences that killed the process before 6c35f6a / 5cfca39 / 763beab (Props.v
+    # C04_old_crash_witnesses_fixed, byte for byte): now refused (400) or stored completely
     add("empty-column-name", [ev_mp(cp("cpu", [tt(), ("", A(I(1), I(2)))])), FLUSH])
     add("underscore-type-change", [ev_mp(cp("cpu", [tt(), ("_x", A(I(1), I(2)))])), ev_mp(cp("cpu", [tt(), ("_x", A(S("a"), S("b")))])), FLUSH])
     add("signature-collision", [
@@ -544,14 +553,36 @@ def witness_cases():
     add("empty-name-typed-off", [ev_mp(cp("cpu", [tt(), ("", A(I(1), I(2)))])), FLUSH], typed=False)
     add("empty-name-row-format", [ev_mp(row_rec("cpu", T0, [("", I(1))])), FLUSH])
     add("underscore-lp", [ev_lp("cpu _x=1i %d\n" % T0), ev_lp('cpu _x="s" %d\n' % (T0 + 1)), FLUSH])
-    add("underscore-worker", [ev_mp(cp("cpu", [tt(), ("_x", A(I(1), I(2)))])), ev_mp(cp("cpu", [tt(), ("_x", A(S("a"), S("b")))]))], max_rows=4)
-    add("empty-name-worker", [ev_mp(cp("cpu", [tt(), ("", A(I(1), I(2)))]))], max_rows=2)
-    add("row-time-worker", [ev_mp(row_rec("cpu", T0, [("time", I(T0 - 1, "i64")), ("v", I(1))]))], max_rows=1)
+    add("underscore-worker", [ev_mp(cp("cpu", [tt(), ("_x", A(I(1), I(2)))])), ev_mp(cp("cpu", [tt(), ("_x", A(S("a"), S("b")))])), FLUSH], max_rows=4)
+    add("empty-name-worker", [ev_mp(cp("cpu", [tt(), ("", A(I(1), I(2)))])), FLUSH], max_rows=2)
+    add("row-time-worker", [ev_mp(row_rec("cpu", T0, [("time", I(T0 - 1, "i64")), ("v", I(1))])), FLUSH], max_rows=1)
     add("empty-name-type-change", [ev_mp(cp("cpu", [tt(), ("", A(I(1), I(2)))])), ev_mp(cp("cpu", [tt(), ("", A(S("a"), S("b")))])), FLUSH])
     add("lp-comma-collision", [
         ev_lp("cpu Z=1.5,a=1i,q:str\\,a=\"x\" %d\n" % T0), ev_lp("cpu Z:f64\\,a:i64\\,q=\"x\",a=\"y\" %d\n" % (T0 + 1)), FLUSH])
-    # handler-side flush (schema change): the panic is recovered, the buffered rows are lost
+    # (was: handler-side flush panic) the first request is refused now
     add("empty-name-then-schema-change", [ev_mp(cp("cpu", [tt(), ("", A(I(1), I(2)))])), ev_mp(cp("cpu", [tt(), ("w", A(I(1), I(2)))])), FLUSH])
+    # STILL open: rowsToColumnar's "_value" rename collides with a tag of that name -> a column with 2 entries per
+    # row; accepted (204), the flush fails (array.NewRecord panics - recovered since 763beab - or the Parquet writer
+    # refuses the columns) and the row is lost.  Several copies with several flushes each: without the recover
+    # every one of these flushes kills the process with probability ~1/2 (Go map order of the schema fields).
+    def suffix_row(m, ts):
+        return row_rec(m, ts, [("a", S("x"))], [("a", S("t")), ("a_value", S("u"))], host="")
+    add("suffix-collision", [ev_mp(suffix_row("cpu", T0)), FLUSH])
+    for i in range(10):
+        m = "sfx%d" % i
+        add("suffix-collision-%d" % i, [ev_mp(suffix_row(m, T0 + i)), FLUSH, ev_mp(suffix_row(m, T0 + 10 + i)), FLUSH,
+                                         ev_mp(suffix_row(m, T0 + 20 + i)), FLUSH], max_rows=BIG if i % 2 else 1)
+    add("suffix-collision-unsorted", [ev_mp(M(("batch", A(suffix_row("cpu", T0 + 5), suffix_row("cpu", T0))))), FLUSH])
+    # multi-hour flushes whose FIRST row lies in the epoch hour (hour bucket 0) or just before it
+    ep = lambda m, ts, vs: M(("m", S(m)), ("columns", M(("time", A(*[I(x) for x in ts])), ("v", A(*[I(x) for x in vs])))))
+    add("epoch-hour-first-multi-hour", [ev_mp(ep("cpu", [0, 7200], [1, 2])), FLUSH])
+    add("epoch-hour-first-merged", [ev_mp(ep("cpu", [10], [1])), ev_mp(ep("cpu", [7300], [2])), ev_mp(ep("cpu", [36000, 5], [3, 4])), FLUSH])
+    add("epoch-hour-first-worker", [ev_mp(ep("cpu", [3599, 3600, 7200], [1, 2, 3])), FLUSH], max_rows=2)
+    add("epoch-hour-first-typed-off", [ev_mp(ep("cpu", [0, 7200], [1, 2])), FLUSH], typed=False)
+    add("pre-epoch-first-multi-hour", [ev_mp(ep("cpu", [-1, 7200, -7200], [1, 2, 3])), FLUSH])
+    add("epoch-hour-first-lp", [ev_lp("cpu v=1i 10\ncpu v=2i 7300\n", None, "s"), FLUSH])
+    add("epoch-hour-schema-change-flush", [ev_mp(ep("cpu", [0, 7200], [1, 2])),
+                                           ev_mp(M(("m", S("cpu")), ("columns", M(("time", A(I(5), I(9000))), ("w", A(I(1), I(2))))))), FLUSH])
     # rejected request that stores rows
     add("partial-batch", [ev_mp(M(("batch", A(cp("aa", [tt(), ("v", A(I(1), I(2)))]), cp("bb", [tt(), ("v", A(I(1), S("s")))]))))), FLUSH])
     # decoder panic is recovered
@@ -767,17 +798,15 @@ def case_hash(case):
     return hashlib.sha1(json.dumps(case_to_json(case), sort_keys=True).encode()).hexdigest()
 
 
-FINDING_BY_BIT = [(1, "empty-column-name"), (2, "underscore-column-type-change"), (4, "comma-in-column-name-signature-collision"),
-                  (8, "row-format-field-named-time")]
-REASON_BITS = {1: 1, 2: 1 | 2 | 4, 3: 8, 4: 8}
-
-
-def finding_signature(reason, cls):
-    """the open finding a predicted death belongs to: the violated guard clause that explains the panic"""
-    for bit, sig in FINDING_BY_BIT:
-        if cls & bit and REASON_BITS.get(reason, 0) & bit:
-            return sig
-    return None
+def oracle_failure_signature(case, o, verdict, agrees):
+    """the open finding an oracle failure of the implementation belongs to (None: not a listed one).
+    A listed finding needs the model to predict exactly this wrong output (agrees)."""
+    if o["died"] or not agrees:
+        return None
+    if o.get("written", 0) != o.get("buffered", 0):
+        # accepted rows that were never written: only the columns-of-different-lengths class (8)
+        return "row-format-value-suffix-collision-loses-rows" if verdict[2] & 8 else None
+    return "partial-write-of-rejected-multi-record-request"
 
 
 def shrink_case(case, fails):
@@ -911,18 +940,6 @@ def run(res, tier, seed):
     reported = set()
 
     # ---- disagreement between model and implementation
-    # DESIGN.md section 4, last row: on an input OUTSIDE the guard of the positive theorems (an excluded
-    # class, verdict class bits != 0) for which the refuted model predicts a failure, an implementation
-    # that does NOT fail (the finding was fixed) is not a violation: the class is then judged by the
-    # property oracle on the implementation alone.  Everything else is.
-    orf_set = set(orf)
-    tolerated = [i for i in dis if verdicts[i][2] != 0 and i not in orf_set]
-    res.cov["histogram"]["excluded_class_cases_where_impl_passes_but_refuted_model_fails"] = len(tolerated)
-    if tolerated:
-        res.notes.append("%d case(s) outside the guard on which the refuted model predicts a failure that the implementation no longer "
-                         "shows (a listed finding was fixed?) - judged by the oracle only, e.g. %s" % (len(tolerated), cases[tolerated[0]]["family"]))
-    dis = [i for i in dis if i not in set(tolerated)]
-    res.cov["model_vs_impl_disagreements"] = len(dis)
     if dis:
         c = cases[dis[0]]
 
@@ -943,47 +960,25 @@ def run(res, tier, seed):
     dis_set = set(dis)
     for i in orf:
         c, o, v = cases[i], mobs[i], verdicts[i]
-        sig = None
-        if o["died"]:
-            if i not in dis_set and v[0] == 1:
-                sig = finding_signature(classify_panic(o["panic"]), v[2])
-        else:
-            # rows stored by a sequence in which nothing was accepted
-            if i not in dis_set:
-                sig = "partial-write-of-rejected-multi-record-request"
+        sig = oracle_failure_signature(c, o, v, i not in dis_set)
         if sig and sig in known:
             if sig not in reported:
                 reported.add(sig)
                 res.known_finding("%s: %s" % (sig, known[sig]["what"]))
             continue
-        if i in dis_set:
-            continue            # already reported through the disagreement
-        res.violation("the real server violated C04 on a sequence outside the listed findings: " +
-                      ("process died: " + o["panic"] if o["died"] else "a refused request stored rows"),
+        if i in dis_set and dis and not o["died"]:
+            continue            # reported through the (shrunk) disagreement above
+        what = ("process died: " + o["panic"]) if o["died"] else (
+            "accepted rows were never written (buffered %s, written %s)" % (o.get("buffered"), o.get("written"))
+            if o.get("written") != o.get("buffered") else "a refused request stored rows")
+        res.violation("the real server violated C04 on a request sequence: " + what,
                       {"kind": "oracle", "case": case_to_json(c), "observed": o, "model_verdict": v, "signature": sig,
                        "how_to_replay": "python3 tools/check.py C04 --replay <this file>"}, suffix="oracle")
         break
 
-    # ---- implementation-only mutation stream: any death that is not a listed finding's panic
-    mut_known = {1: "empty-column-name", 2: None, 3: "row-format-field-named-time"}
-    mut_deaths = {}
+    # ---- implementation-only mutation stream: any death
     for c, o in zip(muts, xobs):
         if not o["died"]:
-            continue
-        code = classify_panic(o["panic"])
-        # a merge type-assertion panic is attributable to the listed classes only through the model; in the
-        # unmodelled stream it is accepted when the sequence carries a '_'-prefixed or ','-bearing column name
-        sig = mut_known.get(code)
-        if code == 2:
-            blob = b"".join(e.get("body", b"") for e in c["events"] if e["k"] == "raw")
-            if re.search(rb"[ ,\xa1-\xbf\xd9]_[A-Za-z0-9]?", blob) or b"\xa0" in blob:
-                sig = "underscore-column-type-change"       # a '_'-prefixed (or empty) key: skipped by the signature
-            elif re.search(rb"\\,|a,b|q:str,a|Z:f64,a:i64,q", blob):
-                sig = "comma-in-column-name-signature-collision"
-            else:
-                sig = None
-        if sig and sig in known:
-            mut_deaths[sig] = mut_deaths.get(sig, 0) + 1
             continue
         res.violation("mutation stream: the real server process died: " + o["panic"],
                       {"kind": "mutation-death", "case": case_to_json(c), "observed": o,
@@ -1011,7 +1006,6 @@ def run(res, tier, seed):
                                    "how_to_replay": "python3 tools/check.py C04 --replay <this file>"}, suffix="alloc")
     res.cov["histogram"]["mutation_requests_allocating_over_%dMB" % ALLOC_LIMIT_MB] = alloc_hits
     res.cov["histogram"]["mutation_max_alloc_mb_per_measured_request"] = alloc_max
-    res.cov["histogram"]["mutation_deaths_matching_listed_findings"] = mut_deaths
     bad_transport = sum(1 for o in xobs + mobs if any(s == -1 for s in o["statuses"]))
     res.cov["histogram"]["transport_errors"] = bad_transport
 
